@@ -239,6 +239,26 @@ func c16(c *ev.Ctx) {
 			}
 		}
 	}
+	// strings a host can supply (and some a script can write): the replacement character,
+	// combining marks, invalid bytes - len, indexing and iteration agree with each other
+	for si, hs := range []string{"ab\ufffdcd", "\ufffd", "x\ufffd", "\ufffd\ufffdy", "e\u0301a", "\u0301", "a\xffb", "\xff", "é\xc3", "a\x00b", "👍🏽x", ""} {
+		id := fmt.Sprintf("host-strings/%d", si)
+		if !c.Want(id) {
+			continue
+		}
+		script := `n = 0; bad = 0; foreach i, ch in S { n++; if (i != n - 1 || len(ch) != 1 || string(S[i]) != ch) { bad++; } } return [n == len(S), bad, type(S[len(S)]), len(S) == 0 || type(S[len(S) - 1]) == "string", S in [S], len(S + S) == 2 * len(S)];`
+		for _, noOpt := range []bool{false, true} {
+			evr, err := eng.New(script, eng.Options{NoOptimize: noOpt})
+			if err != nil {
+				continue
+			}
+			o := evr.Exec(map[string]interface{}{"S": hs})
+			c.Case(fmt.Sprintf("host-string %q %v", hs, noOpt), true)
+			if o.Desc() != "ARRAY:[true, 0, null, true, true, true]" {
+				c.Violation(id, "len, indexing and iteration of a string disagree", map[string]interface{}{"summary": fmt.Sprintf("S=%q (noopt=%v): [iterations == len, mismatching positions, type(S[len]), last index is a character, S in [S], len(S+S) == 2 len(S)] = %s %s", hs, noOpt, o.Desc(), errText(o.Err)), "script": script})
+			}
+		}
+	}
 	// hashes with tied printed keys: dedicated oracle
 	for ti, h := range c16TieHashes() {
 		for prov := 0; prov < 2; prov++ {
